@@ -5,7 +5,7 @@
 import re
 from collections import Counter, defaultdict
 
-from c17_cases import is_idempotent
+from c17_cases import is_idempotent, LONG_RT
 
 TOKEN_RE = re.compile(rb"/t/([A-Za-z0-9]+)[? ]")
 CL_RE = re.compile(rb"\r\ncontent-length:[ \t]*([0-9]+)", re.I)
@@ -203,8 +203,9 @@ def judge(case, rec, slack_ms=250.0):
 
         # R3: deterministic framing error, then the same request again anywhere
         for t in taints:
-            if not t["kind"].startswith("malformed:"):
+            if not t["kind"].startswith(("malformed:", "ambiguous:")):
                 continue
+            ambiguous = t["kind"].startswith("ambiguous:")
             cur = [x for x in tl if x["ord"] == t["exch"]]
             if not cur or cur[0]["token"] not in tok2r:
                 continue
@@ -214,12 +215,19 @@ def judge(case, rec, slack_ms=250.0):
             got = rets.get(ri, (None, {}))[1]
             if got.get("ex") == "HttpFramingError":
                 obs["framing_errors_reported"] += 1
+            if ambiguous:
+                obs["ambiguous_bare_cr_" + ("accepted" if got.get("ok") else "rejected" if got.get("ex") == "HttpFramingError" else "other")] += 1
             if later:
                 if rxed >= t["txpos"]:
+                    # with a short request timeout a stalled client can time out before it looks at bytes its I/O thread
+                    # already read: such a case must reproduce in isolation before it is a verdict
                     V("C17:framing-error:retried:%s" % t["kind"].split(":", 1)[1],
-                      "%s %s: the server answered with a deterministically malformed response (%s, %d bytes, all read by the "
-                      "client) and the request was transmitted again" % (reqs[ri].method, reqs[ri].token, t["kind"], t["txpos"]),
-                      dict(first=cur[0], later=later, client_outcome=got))
+                      "%s %s: the server answered with a complete, %s response (%s, %d bytes, all read by the "
+                      "client) and the request was transmitted again (client outcome: %s)"
+                      % (reqs[ri].method, reqs[ri].token,
+                         "bare-CR (reject-or-accept, never retry)" if ambiguous else "deterministically malformed",
+                         t["kind"], t["txpos"], got.get("what") or got.get("ex") or ("ok" if got.get("ok") else "?")),
+                      dict(first=cur[0], later=later, client_outcome=got), timing=case.rt < LONG_RT)
                 else:
                     obs["framing_retry_unjudged_response_not_read"] += 1
 
@@ -240,7 +248,7 @@ def judge(case, rec, slack_ms=250.0):
                 bad = (kind, "the previous exchange on it never completed (server: %s)" % kind)
             if bad is None:
                 for t in taints:
-                    if t["exch"] > n - 1:
+                    if t["exch"] > n - 1 or t["kind"].startswith("ambiguous:"):
                         continue
                     if t["kind"] in ("idle-fin",):
                         if eof_seen:
